@@ -293,7 +293,7 @@ def handle (st : St) (line : String) : St × String :=
       | some ss =>
         let rules := rulesOfItems (ss.flatMap (·.items))
         let emit := if which = "r" then routingEmit else if which = "q" then dnsRequestEmit else dnsResponseEmit
-        match compileSize emit maxLen rules with
+        match compileSize emit (which = "r") maxLen rules with
         | .ok n => (st, if which = "r" then "ok sets=" ++ toString n else "ok")
         | .error .oversize => (st, "err:oversize")
         | .error .unknownFunction => (st, "err:unknownFunction")
